@@ -37,8 +37,9 @@ def stage {α} (cls : String) (p : PO α) : PO α := do
   | .err _ => PO.fail cls
   | .panic s => PO.panic s
 
-/-- parser.go:116-192.  Result: the header and the claims value of the abstract claims step. -/
-def parse (cfg : Cfg) (data : Bytes) : PO (Header × Wire) :=
+/-- parser.go:116-192 with the claims step `pc` (what `p.parseClaims(ctx, payload)` does) as a
+    parameter.  Result: the header and the result of the claims step. -/
+def parseWith {γ : Type} (pc : Bytes → PO γ) (cfg : Cfg) (data : Bytes) : PO (Header × γ) :=
   if !cfg.configured then PO.fail "config"
   else match splitDot data with
   | none => PO.fail "format"
@@ -63,17 +64,24 @@ def parse (cfg : Cfg) (data : Bytes) : PO (Header × Wire) :=
           stage "sig" (Sig.verifyKey sk (data.take (b64header.length + 1 + b64payload.length)) sg)
           -- parse payload
           let payload ← stage "payloadb64" (b64Decode b64payload)
-          -- parse claims (abstract)
-          match (← PO.query "c01.jwt.parseClaims" [.bytes payload]) with
-          | .none => PO.fail "claims"
-          | c => pure (header, c)
+          -- parse claims
+          let c ← pc payload
+          pure (header, c)
 
-/-- jwt.go:52-88 `Sign(header, claims, key)`: header.payload.signature built in one buffer -/
-def sign (header : Header) (claims : Wire) (key : Sig.SigningKey) : PO Bytes := do
-  let payload ← (do
-    match (← PO.query "c02.jwt.encodeClaims" [claims]) with
-    | .bytes b => pure b
-    | _ => PO.fail "claims" : PO Bytes)
+/-- the claims step as ONE abstract oracle step (properties C04/C10 model it in full:
+    `Model.JWTClaims.parseClaims`; see `parseFull` in GoatProofs/C02.lean for the assembly) -/
+def claimsOracle (payload : Bytes) : PO Wire := do
+  match (← PO.query "c01.jwt.parseClaims" [.bytes payload]) with
+  | .none => PO.fail "claims"
+  | c => pure c
+
+/-- `Parser.Parse` with the abstract claims step -/
+def parse (cfg : Cfg) (data : Bytes) : PO (Header × Wire) := parseWith claimsOracle cfg data
+
+/-- jwt.go:52-88 `Sign(header, claims, key)` with the claims encoder `enc` (`encodeClaims(claims)`) as
+    a parameter: header.payload.signature built in one buffer -/
+def signWith (enc : PO Bytes) (header : Header) (key : Sig.SigningKey) : PO Bytes := do
+  let payload ← enc
   let h1 ← stage "header" (encodeHeader header)
   let headerBytes ← stage "header" (jsonMarshalB h1)
   let b1 ← b64Encode headerBytes
@@ -81,5 +89,14 @@ def sign (header : Header) (claims : Wire) (key : Sig.SigningKey) : PO Bytes := 
   let sg ← Sig.signKey key (b1 ++ dot :: b2)
   let b3 ← b64Encode sg
   pure (b1 ++ dot :: (b2 ++ dot :: b3))
+
+/-- the claims encoder as ONE abstract oracle step -/
+def encodeClaimsOracle (claims : Wire) : PO Bytes := do
+  match (← PO.query "c02.jwt.encodeClaims" [claims]) with
+  | .bytes b => pure b
+  | _ => PO.fail "claims"
+
+def sign (header : Header) (claims : Wire) (key : Sig.SigningKey) : PO Bytes :=
+  signWith (encodeClaimsOracle claims) header key
 
 end Model.JWT
